@@ -129,4 +129,32 @@ open World.CacheDemo in
 example : (result script (World.init 2 2)).map (·.2) = some (List.replicate 8 true) := by
   decide +kernel
 
+/-! The hypotheses of (d)/(e) are met by the model's own steps: `wA` → `wB0` is the storage part
+    of `createTable` for the child of `p2` (table 2 becomes active in archetype 1, cache not yet
+    told), `wB` → `wR` is the storage part of freeing table 1 in `cleanupArchetypes`. -/
+
+/-- the storage part of `createTable` is a `TableAdded` step -/
+theorem demo_tableAdded : type_of% @World.CacheDemo.demo_tableAdded :=
+  @World.CacheDemo.demo_tableAdded
+
+open World.CacheDemo in
+/-- … and `cache.addTable` on it yields exactly the cache the model's `createTable` produced;
+    before the call the first entry disagrees with the walk, afterwards both agree -/
+theorem demo_addTable_runs :
+    (wB0.cacheAddTable (wB0.tbl 2)).map (·.cache) = some wB.cache ∧ (wB0.tbl 2).id = 2 ∧
+      agree wB0 0 = false ∧ agree wB 0 = true ∧ agree wB 1 = true := by
+  decide +kernel
+
+/-- the storage part of freeing a table is a `TableRemoved` step -/
+theorem demo_tableRemoved : type_of% @World.CacheDemo.demo_tableRemoved :=
+  @World.CacheDemo.demo_tableRemoved
+
+open World.CacheDemo in
+/-- … before `cache.removeTable` the first entry disagrees with the walk, afterwards both
+    entries agree -/
+theorem demo_removeTable_runs :
+    agree wR 0 = false ∧ agree (wR.cacheRemoveTable 1) 0 = true ∧
+      agree (wR.cacheRemoveTable 1) 1 = true := by
+  decide +kernel
+
 end Ark.Props.C05Cache
